@@ -348,6 +348,36 @@ fn accessor(bytes: &[u8], op: &str) -> String {
                 res(r, |el| format!("{}:{}", el.raw_data().len(), seq.verif_raw().len()))
             }
         },
+        // stack consumed by `Display` of the element (one recursion level per nesting level), measured as the span
+        // of the addresses of a local of the `fmt::Write` sink; runs in its own 64 MiB thread so that the measurement
+        // itself cannot overflow.  Corpus only (not in ACCESSORS): the value depends on the build.
+        "fmt_stack" => {
+            struct Sink(usize, usize);
+            impl std::fmt::Write for Sink {
+                fn write_str(&mut self, _s: &str) -> std::fmt::Result {
+                    let marker = 0u8;
+                    let a = &marker as *const u8 as usize;
+                    self.0 = self.0.min(a);
+                    self.1 = self.1.max(a);
+                    Ok(())
+                }
+            }
+            let data = bytes.to_vec();
+            let r = std::thread::Builder::new()
+                .stack_size(64 * 1024 * 1024)
+                .spawn(move || {
+                    use std::fmt::Write as _;
+                    let mut s = Sink(usize::MAX, 0);
+                    let ok = write!(&mut s, "{}", TLVElement::new(&data)).is_ok();
+                    (ok, s.1.saturating_sub(s.0))
+                })
+                .map(|h| h.join());
+            match r {
+                Ok(Ok((true, span))) => format!("ok:{}", span),
+                Ok(Ok((false, _))) => "e:fmt".into(),
+                _ => "panic".into(),
+            }
+        }
         "seq_fmt" => match seq_of(&e) {
             None => "nc".into(),
             Some(seq) => {
